@@ -4,6 +4,7 @@
    (big-endian size, little-endian opcode), so it returns the same bytes and leaves the same state. *)
 From WS Require Import lib.Bytes lib.Res lib.StepLoop Consts Steps model.HeaderCipher model.HeaderIo
   lib.IoScript proofs.steps.HelpersCommon proofs.steps.HelpersVanilla proofs.steps.HelpersTbc proofs.steps.IoWrappers.
+From WS Require Import model.Rc4 model.Wrath proofs.steps.Wrath proofs.steps.IoWrath.
 From WS Require model.Vanilla model.Tbc.
 Local Open Scope N_scope.
 
@@ -71,7 +72,26 @@ Proof.
   split; [apply tbc_write_server_translated | apply tbc_write_client_translated].
 Qed.
 
+(* Wrath client: the Read wrapper for server headers, as translated.  A failure of the FIRST read leaves
+   the half untouched (for every cipher function); the whole wrapper is the model's function, about
+   which C11_wrath_fifth_byte_failure and C11_wrath_resume speak (after a failure while fetching the
+   fifth byte the state is the one after the attempt, stash written, and the header can be completed) *)
+Theorem C11_source_wrath_first_read_failure : forall (ST : Type) (ext : ST -> list N -> option (ST * list N)) (d : ST) hdr s kd,
+  read_exact 4 s = Err kd ->
+  tr_wrath_read_and_decrypt_server_header ext d hdr s = Some ((d, hdr), inr kd, s).
+Proof.
+  intros ST ext d hdr s kd E. unfold tr_wrath_read_and_decrypt_server_header.
+  rewrite repeat_length. change (N.to_nat 4) with 4%nat. rewrite E. reflexivity.
+Qed.
+
+Theorem C11_source_wrath_read_is_model : forall h s, length (cd_hdr h) = 4%nat ->
+  drop_reader (tr_wrath_read_and_decrypt_server_header apply_view (cd_rc4 h) (cd_hdr h) s)
+  = wr_view (w_read_and_decrypt_server_header h s) s.
+Proof. exact wrath_read_server_translated. Qed.
+
 Print Assumptions C11_source_helpers_vanilla.
+Print Assumptions C11_source_wrath_first_read_failure.
+Print Assumptions C11_source_wrath_read_is_model.
 Print Assumptions C11_source_read_failure.
 Print Assumptions C11_source_wrappers_are_model.
 Print Assumptions C11_source_helpers_tbc.
